@@ -765,7 +765,7 @@ func c16JobConfigCase(i int, r *rand.Rand, e *c16Env, res *core.Result) {
 		}
 		after := ug.Spec.Schedule.LastUpdated
 		stamped := after != nil && (before == nil || !after.Equal(before))
-		futureKept := before != nil && before.After(now2)
+		futureKept := before != nil && !before.Time.Before(now2.Truncate(time.Second)) // a lastUpdated that is not in the past is kept
 		switch {
 		case changed && !stamped && !futureKept:
 			viol("lastUpdated-not-stamped-on-change", "schedule changed at %v but lastUpdated stayed %s", now2.UTC(), tsOrNone(before))
